@@ -20,6 +20,8 @@ PRELUDE = r'''
 #include <tuple>
 #include <vector>
 
+using pgm_llong = long long;   // a signed 64-bit integer type distinct from int64_t (= long) on LP64
+
 namespace drv {
 
 template<class T> T mk() { return T(); }
@@ -60,6 +62,13 @@ void use_mapped(const std::vector<K> &data, K q) {
     (void) a.size_in_bytes();
     (void) b.size();
     (void) c.size();
+}
+
+// a range whose value type is not the key type of the container (the keys are converted, as in PGMIndex::build)
+template<class Index, class V>
+void use_mapped_mixed(const std::vector<V> &data) {
+    Index a(data.begin(), data.end(), std::string("out3.bin"));
+    (void) a.size();
 }
 
 template<class Index, class P>
@@ -175,6 +184,9 @@ def body_for(configs):
         elif kind == 'mapped':
             _, k, e, er, fl = c
             lines.append(f"    drv::use_mapped<pgm::MappedPGMIndex<{k}, {e}, {er}, {fl}>, {k}>(std::vector<{k}>(), {k}());\n")
+        elif kind == 'mapped_mixed':
+            _, k, v, e, er, fl = c
+            lines.append(f"    drv::use_mapped_mixed<pgm::MappedPGMIndex<{k}, {e}, {er}, {fl}>, {v}>(std::vector<{v}>());\n")
         elif kind == 'multidim':
             _, dims, t, e, er, fl = c
             p = tuple_type(t, dims)
@@ -206,6 +218,7 @@ QUICK = [
     ('pgm', 'int32_t', 32, 4, 'float'),
     ('pgm', 'double', 16, 4, 'double'),
     ('pgm', 'uint8_t', 16, 4, 'float'),
+    ('pgm', 'pgm_llong', 16, 4, 'float'),   # a signed 64-bit type that is not int64_t on LP64
     ('compressed', 'uint64_t', 8, 0, 'float'),
     ('compressed', 'uint64_t', 32, 4, 'float'),
     ('compressed', 'uint32_t', 4, 256, 'double'),
@@ -215,6 +228,8 @@ QUICK = [
     ('eliasfano', 'uint32_t', 8, 'double'),
     ('mapped', 'uint64_t', 32, 4, 'float'),
     ('mapped', 'int64_t', 8, 0, 'float'),
+    ('mapped_mixed', 'int64_t', 'int32_t', 8, 0, 'float'),
+    ('mapped_mixed', 'uint32_t', 'uint64_t', 32, 4, 'float'),
     ('multidim', 2, 'uint64_t', 16, 4, 'float'),
     ('multidim', 3, 'uint32_t', 8, 0, 'float'),
     ('multidim', 4, 'uint64_t', 32, 4, 'float'),
@@ -226,7 +241,7 @@ QUICK = [
     ('segmentation', 'int32_t'),
 ]
 
-KEY_TYPES = ['uint8_t', 'int8_t', 'uint16_t', 'int16_t', 'uint32_t', 'int32_t', 'uint64_t', 'int64_t', 'float', 'double']
+KEY_TYPES = ['uint8_t', 'int8_t', 'uint16_t', 'int16_t', 'uint32_t', 'int32_t', 'uint64_t', 'int64_t', 'pgm_llong', 'float', 'double']
 UNSIGNED = ['uint8_t', 'uint16_t', 'uint32_t', 'uint64_t']
 
 
